@@ -298,10 +298,10 @@ def qubo_to_matrix(Q, symmetric=False, array=True):
         ``array`` for info on the return type of ``matrix``.
 
     """
+    if not isinstance(Q, QUBOMatrix):
+        Q = QUBOMatrix(Q)
     if not Q:
         raise ValueError("QUBO dictionary is empty")
-    elif not isinstance(Q, QUBOMatrix):
-        Q = QUBOMatrix(Q)
 
     if Q[()] != 0:
         raise ValueError("QUBO cannot have a constant when converting "
